@@ -1,0 +1,510 @@
+//! Verification hooks, compiled only with the cargo feature `verif-hooks` (off by default).
+//!
+//! This module is a child of `vm` (declared there with `#[path]`) so that it can see the VM's
+//! private backtracking state. Nothing in here changes behaviour unless a hook is installed by
+//! the calling thread; every hook lives in a thread-local, so threads never see each other's
+//! hooks. It is not part of the supported API.
+#![allow(missing_docs)]
+#![allow(missing_debug_implementations)]
+
+use super::{Insn, Prog, State};
+use alloc::boxed::Box;
+use alloc::vec::Vec;
+use std::cell::{Cell, RefCell};
+
+// ------------------------------------------------------------------------------------------------
+// H1: yield points
+
+/// Sites at which `yield_point` is called.
+pub mod site {
+    pub const VM_INSN: u32 = 0;
+    pub const VM_BACKTRACK: u32 = 1;
+    pub const VM_DELEGATE: u32 = 2;
+    pub const API_IS_MATCH: u32 = 3;
+    pub const API_FIND: u32 = 4;
+    pub const API_CAPTURES: u32 = 5;
+    pub const ITER_MATCHES: u32 = 6;
+    pub const ITER_CAPTURES: u32 = 7;
+    pub const ITER_SPLIT: u32 = 8;
+    pub const ITER_SPLITN: u32 = 9;
+    pub const REPLACE_FAST: u32 = 10;
+    pub const REPLACE_SLOW: u32 = 11;
+    pub const N: usize = 12;
+}
+
+thread_local! {
+    static YIELD: Cell<Option<fn(u32)>> = Cell::new(None);
+}
+
+/// Install (or remove) the calling thread's yield hook.
+pub fn set_yield_hook(f: Option<fn(u32)>) {
+    YIELD.with(|y| y.set(f));
+}
+
+#[inline]
+pub(crate) fn yield_point(site: u32) {
+    if let Some(f) = YIELD.with(|y| y.get()) {
+        f(site)
+    }
+}
+
+// ------------------------------------------------------------------------------------------------
+// H2: limit override (fault injection), keyed by the thread's `vm::run` ordinal
+
+/// Limits to use for one `vm::run` instead of the configured ones.
+#[derive(Clone, Copy, Debug, Default, PartialEq, Eq)]
+pub struct LimitOverride {
+    pub backtrack_limit: Option<usize>,
+    pub max_stack: Option<usize>,
+}
+
+thread_local! {
+    static RUN_ORDINAL: Cell<u64> = Cell::new(0);
+    static FAULT_PLAN: RefCell<Vec<(u64, LimitOverride)>> = RefCell::new(Vec::new());
+    static DEFAULT_OVERRIDE: Cell<LimitOverride> = Cell::new(LimitOverride { backtrack_limit: None, max_stack: None });
+}
+
+/// Number of `vm::run` calls this thread has started since the last reset.
+pub fn run_ordinal() -> u64 {
+    RUN_ORDINAL.with(|c| c.get())
+}
+
+/// Reset the per-thread `vm::run` ordinal to zero.
+pub fn reset_run_ordinal() {
+    RUN_ORDINAL.with(|c| c.set(0));
+}
+
+/// Fault plan: `(ordinal, limits)` pairs; the ordinal of the first `vm::run` after a reset is 0.
+pub fn set_fault_plan(plan: Vec<(u64, LimitOverride)>) {
+    FAULT_PLAN.with(|p| *p.borrow_mut() = plan);
+}
+
+/// Override applied to every `vm::run` of this thread that has no entry in the fault plan.
+pub fn set_default_override(o: LimitOverride) {
+    DEFAULT_OVERRIDE.with(|d| d.set(o));
+}
+
+/// Called by `vm::run` once per call: advances the ordinal and returns the override to apply.
+pub(crate) fn begin_run() -> LimitOverride {
+    let ord = RUN_ORDINAL.with(|c| {
+        let v = c.get();
+        c.set(v + 1);
+        v
+    });
+    let planned = FAULT_PLAN.with(|p| {
+        p.borrow()
+            .iter()
+            .find(|(o, _)| *o == ord)
+            .map(|(_, l)| *l)
+    });
+    planned.unwrap_or_else(|| DEFAULT_OVERRIDE.with(|d| d.get()))
+}
+
+// ------------------------------------------------------------------------------------------------
+// H3: run statistics, counted by the hooks themselves (independent of the VM's own counters)
+
+#[derive(Clone, Copy, Debug, PartialEq, Eq)]
+pub enum EndReason {
+    Running,
+    Match,
+    NoMatch,
+    BacktrackLimit,
+    StackOverflow,
+}
+
+#[derive(Clone, Copy, Debug, PartialEq, Eq)]
+pub struct RunStats {
+    /// ordinal of this run on its thread
+    pub ordinal: u64,
+    pub pos: usize,
+    pub option_flags: u32,
+    /// limits in force for this run (after any override)
+    pub backtrack_limit: usize,
+    pub max_stack: usize,
+    /// VM instructions dispatched
+    pub insns: u64,
+    /// times the VM reached the backtrack point with a non-empty branch stack
+    pub backtracks: u64,
+    /// successful `State::push` calls
+    pub pushes: u64,
+    /// `State::push` calls refused for lack of capacity
+    pub pushes_refused: u64,
+    /// branch-stack depth at the (last) refused push
+    pub refused_at_depth: usize,
+    /// `State::pop` calls (backtracks plus the pops of negative look-around unwinding)
+    pub pops: u64,
+    /// peak branch-stack depth
+    pub peak_depth: usize,
+    pub end: EndReason,
+}
+
+impl RunStats {
+    fn new() -> RunStats {
+        RunStats {
+            ordinal: 0,
+            pos: 0,
+            option_flags: 0,
+            backtrack_limit: 0,
+            max_stack: 0,
+            insns: 0,
+            backtracks: 0,
+            pushes: 0,
+            pushes_refused: 0,
+            refused_at_depth: 0,
+            pops: 0,
+            peak_depth: 0,
+            end: EndReason::Running,
+        }
+    }
+}
+
+thread_local! {
+    static CUR_STATS: Cell<RunStats> = Cell::new(RunStats::new());
+    static STATS_LOG: RefCell<Option<Vec<RunStats>>> = RefCell::new(None);
+    static IN_RUN: Cell<u32> = Cell::new(0);
+}
+
+/// Start (Some(empty)) or stop (None) recording per-run statistics on this thread.
+pub fn record_run_stats(on: bool) {
+    STATS_LOG.with(|l| *l.borrow_mut() = if on { Some(Vec::new()) } else { None });
+}
+
+/// Take the statistics of all runs finished on this thread since the last call.
+pub fn take_run_stats() -> Vec<RunStats> {
+    STATS_LOG.with(|l| match l.borrow_mut().as_mut() {
+        Some(v) => core::mem::take(v),
+        None => Vec::new(),
+    })
+}
+
+#[inline]
+fn stats(f: impl FnOnce(&mut RunStats)) {
+    CUR_STATS.with(|c| {
+        let mut s = c.get();
+        f(&mut s);
+        c.set(s);
+    });
+}
+
+// ------------------------------------------------------------------------------------------------
+// H4: search-call log (the three search entry points of `Regex`)
+
+#[derive(Clone, Copy, Debug, PartialEq, Eq)]
+pub struct SearchCall {
+    /// one of site::API_IS_MATCH / API_FIND / API_CAPTURES
+    pub kind: u32,
+    pub pos: usize,
+    pub option_flags: u32,
+}
+
+thread_local! {
+    static CALL_LOG: RefCell<Option<Vec<SearchCall>>> = RefCell::new(None);
+}
+
+pub fn record_search_calls(on: bool) {
+    CALL_LOG.with(|l| *l.borrow_mut() = if on { Some(Vec::new()) } else { None });
+}
+
+pub fn take_search_calls() -> Vec<SearchCall> {
+    CALL_LOG.with(|l| match l.borrow_mut().as_mut() {
+        Some(v) => core::mem::take(v),
+        None => Vec::new(),
+    })
+}
+
+#[inline]
+pub(crate) fn search_call(kind: u32, pos: usize, option_flags: u32) {
+    CALL_LOG.with(|l| {
+        if let Some(v) = l.borrow_mut().as_mut() {
+            v.push(SearchCall {
+                kind,
+                pos,
+                option_flags,
+            });
+        }
+    });
+    yield_point(kind);
+}
+
+// ------------------------------------------------------------------------------------------------
+// H5: observer of the VM's backtracking state and a public wrapper over the private `State`
+
+/// One operation on the VM's backtracking state, reported *after* it took effect.
+#[derive(Clone, Copy, Debug, PartialEq, Eq)]
+pub enum StateOp {
+    /// `State::push`; `ok == false` when refused for lack of capacity
+    Push { pc: usize, ix: usize, ok: bool },
+    /// `State::pop` returning `(pc, ix)`
+    Pop { pc: usize, ix: usize },
+    /// `State::save`
+    Save { slot: usize, val: usize },
+    /// `State::stack_push` (its internal `save`s are reported first, with slot >= n_slots)
+    StackPush { val: usize },
+    /// `State::stack_pop` returning `val`
+    StackPop { val: usize },
+    /// `State::backtrack_cut(count)`
+    Cut { count: usize },
+}
+
+/// Borrowed, read-only view of the VM's backtracking state.
+pub struct StateView<'a> {
+    st: &'a State,
+}
+
+impl<'a> StateView<'a> {
+    /// The raw save vector (slots, then the explicit stack pointer cell, then explicit stack data).
+    pub fn raw_saves(&self) -> &'a [usize] {
+        &self.st.saves
+    }
+    /// Number of ordinary slots (capture positions, counters, saved positions).
+    pub fn n_slots(&self) -> usize {
+        self.st.explicit_sp
+    }
+    /// The ordinary slots.
+    pub fn slots(&self) -> &'a [usize] {
+        &self.st.saves[..self.st.explicit_sp]
+    }
+    /// The live content of the explicit (auxiliary) stack, bottom first.
+    pub fn aux(&self) -> &'a [usize] {
+        let n = self.st.explicit_sp;
+        if self.st.saves.len() <= n {
+            return &[];
+        }
+        let sp = self.st.saves[n];
+        &self.st.saves[n + 1..sp]
+    }
+    /// Number of backtrack branches.
+    pub fn depth(&self) -> usize {
+        self.st.stack.len()
+    }
+    /// `(pc, ix)` of branch `i` (0 = oldest).
+    pub fn branch(&self, i: usize) -> (usize, usize) {
+        let b = &self.st.stack[i];
+        (b.pc, b.ix)
+    }
+    pub fn max_stack(&self) -> usize {
+        self.st.max_stack
+    }
+}
+
+pub struct RunInfo<'a> {
+    pub prog: &'a [Insn],
+    pub n_slots: usize,
+    pub text: &'a str,
+    pub pos: usize,
+    pub option_flags: u32,
+    pub backtrack_limit: usize,
+    pub max_stack: usize,
+    pub ordinal: u64,
+}
+
+/// Observer of VM runs on the installing thread. All methods default to no-ops.
+pub trait Observer {
+    fn run_begin(&mut self, _info: &RunInfo<'_>) {}
+    /// Called before instruction `pc` is dispatched at text index `ix`.
+    fn insn(&mut self, _pc: usize, _ix: usize, _insn: &Insn, _st: &StateView<'_>) {}
+    /// Called after every operation on the backtracking state.
+    fn op(&mut self, _op: StateOp, _st: &StateView<'_>) {}
+    /// Called when the run ends; `saves` is the returned slot vector of a match.
+    fn run_end(&mut self, _end: EndReason, _saves: Option<&[usize]>) {}
+}
+
+thread_local! {
+    static OBSERVER: RefCell<Option<Box<dyn Observer>>> = RefCell::new(None);
+    static OBSERVER_ON: Cell<bool> = Cell::new(false);
+}
+
+/// Install an observer for the calling thread; returns the previous one.
+pub fn set_observer(o: Option<Box<dyn Observer>>) -> Option<Box<dyn Observer>> {
+    OBSERVER_ON.with(|c| c.set(o.is_some()));
+    OBSERVER.with(|cell| core::mem::replace(&mut *cell.borrow_mut(), o))
+}
+
+#[inline]
+fn observe(f: impl FnOnce(&mut dyn Observer)) {
+    if !OBSERVER_ON.with(|c| c.get()) {
+        return;
+    }
+    // Take the observer out while it runs, so that a panic inside it (used by the simulator to
+    // abort a spinning run) cannot leave the cell borrowed.
+    let taken = OBSERVER.with(|cell| cell.borrow_mut().take());
+    if let Some(o) = taken {
+        struct PutBack(Option<Box<dyn Observer>>);
+        impl Drop for PutBack {
+            fn drop(&mut self) {
+                let o = self.0.take();
+                OBSERVER.with(|cell| {
+                    let mut c = cell.borrow_mut();
+                    if c.is_none() {
+                        *c = o;
+                    }
+                });
+            }
+        }
+        let mut guard = PutBack(Some(o));
+        if let Some(o) = guard.0.as_mut() {
+            f(&mut **o);
+        }
+        drop(guard);
+    }
+}
+
+// --- called from vm.rs -------------------------------------------------------------------------
+
+pub(crate) fn run_begin(
+    prog: &Prog,
+    text: &str,
+    pos: usize,
+    option_flags: u32,
+    backtrack_limit: usize,
+    max_stack: usize,
+) {
+    let ordinal = run_ordinal().wrapping_sub(1);
+    IN_RUN.with(|c| c.set(c.get() + 1));
+    let mut s = RunStats::new();
+    s.ordinal = ordinal;
+    s.pos = pos;
+    s.option_flags = option_flags;
+    s.backtrack_limit = backtrack_limit;
+    s.max_stack = max_stack;
+    CUR_STATS.with(|c| c.set(s));
+    observe(|o| {
+        o.run_begin(&RunInfo {
+            prog: &prog.body,
+            n_slots: prog.n_saves,
+            text,
+            pos,
+            option_flags,
+            backtrack_limit,
+            max_stack,
+            ordinal,
+        })
+    });
+}
+
+#[inline]
+pub(super) fn at_insn(pc: usize, ix: usize, insn: &Insn, st: &State) {
+    stats(|s| s.insns += 1);
+    observe(|o| o.insn(pc, ix, insn, &StateView { st }));
+    yield_point(site::VM_INSN);
+}
+
+#[inline]
+pub(crate) fn at_backtrack() {
+    stats(|s| s.backtracks += 1);
+    yield_point(site::VM_BACKTRACK);
+}
+
+#[inline]
+pub(crate) fn at_delegate() {
+    yield_point(site::VM_DELEGATE);
+}
+
+#[inline]
+pub(super) fn state_op(op: StateOp, st: &State) {
+    if IN_RUN.with(|c| c.get()) > 0 {
+        stats(|s| match op {
+            StateOp::Push { ok: true, .. } => {
+                s.pushes += 1;
+                if st.stack.len() > s.peak_depth {
+                    s.peak_depth = st.stack.len();
+                }
+            }
+            StateOp::Push { ok: false, .. } => {
+                s.pushes_refused += 1;
+                s.refused_at_depth = st.stack.len();
+            }
+            StateOp::Pop { .. } => s.pops += 1,
+            _ => {}
+        });
+    }
+    observe(|o| o.op(op, &StateView { st }));
+}
+
+/// Guard created at the start of `vm::run`; records how the run ended when it is dropped
+/// (including by `?` on a refused push and by unwinding).
+pub(crate) struct RunGuard {
+    pub(crate) end: EndReason,
+}
+
+impl RunGuard {
+    pub(crate) fn new() -> RunGuard {
+        RunGuard {
+            end: EndReason::Running,
+        }
+    }
+    pub(crate) fn matched(&mut self, saves: &[usize]) {
+        self.end = EndReason::Match;
+        observe(|o| o.run_end(EndReason::Match, Some(saves)));
+    }
+    pub(crate) fn finish(&mut self, end: EndReason) {
+        self.end = end;
+        observe(|o| o.run_end(end, None));
+    }
+}
+
+impl Drop for RunGuard {
+    fn drop(&mut self) {
+        IN_RUN.with(|c| c.set(c.get().saturating_sub(1)));
+        let mut s = CUR_STATS.with(|c| c.get());
+        if self.end == EndReason::Running {
+            // left through `?` (refused push) or by unwinding
+            if s.pushes_refused > 0 && !std::thread::panicking() {
+                self.end = EndReason::StackOverflow;
+                observe(|o| o.run_end(EndReason::StackOverflow, None));
+            }
+        }
+        s.end = self.end;
+        CUR_STATS.with(|c| c.set(s));
+        STATS_LOG.with(|l| {
+            if let Ok(mut l) = l.try_borrow_mut() {
+                if let Some(v) = l.as_mut() {
+                    v.push(s);
+                }
+            }
+        });
+    }
+}
+
+// --- public wrapper over the private State ------------------------------------------------------
+
+/// Thin wrapper that lets an external driver issue operation sequences against the VM's private
+/// backtracking state.
+pub struct VerifState(State);
+
+impl VerifState {
+    pub fn new(n_slots: usize, max_stack: usize) -> VerifState {
+        VerifState(State::new(n_slots, max_stack, 0))
+    }
+    /// Create an alternative; false when the capacity is exhausted.
+    pub fn push(&mut self, pc: usize, ix: usize) -> bool {
+        self.0.push(pc, ix).is_ok()
+    }
+    /// Abandon the current alternative. Precondition: `depth() > 0`.
+    pub fn pop(&mut self) -> (usize, usize) {
+        self.0.pop()
+    }
+    pub fn save(&mut self, slot: usize, val: usize) {
+        self.0.save(slot, val)
+    }
+    pub fn get(&self, slot: usize) -> usize {
+        self.0.get(slot)
+    }
+    pub fn stack_push(&mut self, val: usize) {
+        self.0.stack_push(val)
+    }
+    /// Precondition: the auxiliary stack is not empty.
+    pub fn stack_pop(&mut self) -> usize {
+        self.0.stack_pop()
+    }
+    pub fn depth(&self) -> usize {
+        self.0.backtrack_count()
+    }
+    /// Precondition: `count <= depth()`.
+    pub fn backtrack_cut(&mut self, count: usize) {
+        self.0.backtrack_cut(count)
+    }
+    pub fn view(&self) -> StateView<'_> {
+        StateView { st: &self.0 }
+    }
+}
